@@ -200,6 +200,8 @@ impl Check for C14 {
             PhaseSpec { name: "corpus", cases: corpus::project_cases().len() as u64, max_bytes: 0, exhaustive: true },
             PhaseSpec { name: "gen", cases: tier.pick(6_000, 30_000), max_bytes: 1500, exhaustive: false },
             PhaseSpec { name: "broken", cases: tier.pick(2_000, 10_000), max_bytes: 1500, exhaustive: false },
+            // the isolation / coherence defects of C16: here only the agreement of the two pipelines is judged
+            PhaseSpec { name: "defect", cases: tier.pick(3_000, 15_000), max_bytes: 1600, exhaustive: false },
         ]
     }
     fn make(&self, phase: &str, index: u64, bytes: &[u8], ctx: &mut Ctx) -> Case {
@@ -212,6 +214,20 @@ impl Check for C14 {
         let proj = projgen::gen_project(&mut d, ctx);
         let mut labels = proj.features();
         let mut files = proj.render();
+        if phase == "defect" {
+            let k0 = (index % projgen::DEFECT_KINDS.len() as u64) as usize;
+            for off in 0..projgen::DEFECT_KINDS.len() {
+                let which = (k0 + off) % projgen::DEFECT_KINDS.len();
+                if let Some(inj) = projgen::inject(&proj, which, &mut d) {
+                    if inj.kind == "self-import" && ctx.gated("import:self") {
+                        continue;
+                    }
+                    labels.push(format!("defect:{}", inj.kind));
+                    files = inj.files;
+                    break;
+                }
+            }
+        }
         if phase == "broken" {
             // one text replacement in one file
             let fi = d.below(files.len());
